@@ -5,14 +5,18 @@ from ..flow import (resolver, peel, root_local, guards_of, call_guarded, rel_fac
 from ..facts import AnchorMissing, op_local
 from . import shared, C10
 
-LEVEL = ("decides the mechanisms the statement names: the core guard has a Drop that restores the "
-         "root state on every path and is constructed only in the infeasible-under-assumptions state; "
-         "assumptions are overwritten per solve; restarts never cut below the assumption levels; "
-         "every assumption/decision is posted on a fresh decision level and assumptions are indexed "
-         "by the decision level; core extraction resolves in all-decision mode; no explicit panic in "
-         "the API layer; no reason reference is fabricated; the minimiser's failure marker is "
-         "handled before trail lookups on its output are unwrapped; typestate: the guard's Drop "
-         "returns the solver to a usable root state. Does not decide that a core is logically a core")
+LEVEL = ('decides the mechanisms the statement names: the core guard has a Drop that restores the root'
+         ' state on every path and is constructed only in the infeasible-under-assumptions state; '
+         'assumptions are overwritten per solve; restarts never cut below the assumption levels; every'
+         ' assumption/decision is posted on a fresh decision level and assumptions are indexed by the '
+         'decision level; core extraction resolves in all-decision mode; no explicit panic in the API '
+         "layer; no reason reference is fabricated; the minimiser's failure marker is handled before "
+         "trail lookups on its output are unwrapped; typestate: the guard's Drop returns the solver to"
+         ' a usable root state. is_mutually_exclusive_with answers true only for two predicates on one'
+         ' variable that no value satisfies together and negation is exact (A12/A13, decided on a '
+         "small integer window); the no-learning resolver's flipped decision carries a reason that "
+         'covers every earlier decision level, evaluated with symbolic levels (A14). Does not decide '
+         'that a core is logically a core')
 TECHNIQUE = "static analysis: dominance / who-may-call / taint / typestate over rustc MIR"
 
 GUARD = "UnsatisfiableUnderAssumptions"
